@@ -162,7 +162,7 @@ def run_one(case):
                 N.oshape, N.ishape, A.ishape, A.ishape), wit, mech="shape")
         worst = 0.0
         for k in range(3):
-            with structured((sum(case["rs"]) // 3) % 9 if sum(case["rs"]) % 2 else 0):
+            with structured((sum(case["rs"]) // 3) % 10 if sum(case["rs"]) % 2 else 0):
                 x = crandn(rng, tuple(A.ishape), np.complex64 if single else np.complex128)
             if k == 2 and x.size:           # sparse probe: isolates coverage-count errors
                 x = np.zeros(tuple(A.ishape), np.complex64 if single else np.complex128)
